@@ -236,7 +236,6 @@ Qed.
 (* ====================================================================== *)
 (* composition objects (model/Lift.v)                                      *)
 
-Definition is_err (o : obj) : bool := match o with OErr _ => true | _ => false end.
 
 Lemma sel_apply2_nums : forall g x y, sel_apply2 g (ONum x) (ONum y) = ONum (snd g x y).
 Proof. intros [[| |] f] x y; reflexivity. Qed.
